@@ -62,7 +62,7 @@ Definition unroll_structure_ok (c : circuit) (sio : list (string * string)) (n :
 (* ---- sequential circuits ---- *)
 Definition qd_pins (C : Circuit) (d q : string) : list (string * string * string) :=     (* instance, Q pin node, D pin node *)
   (λ b, (b, pin b q, pin b d)) <$> elements (dom (c_bbs C)).
-Definition seq_domain (C : Circuit) (n : nat) (d q : string) (prefix : string) : bool :=
+Definition seq_domain (C : Circuit) (n : nat) (d q : string) (ign : list string) (prefix : string) : bool :=
   let c := c_g C in
   lint_cleanb C && closedb c && acyclicb c && (1 <=? n)%nat &&
   match map_to_list (c_bbs C) with
@@ -72,7 +72,8 @@ Definition seq_domain (C : Circuit) (n : nat) (d q : string) (prefix : string) :
   end &&
   bool_decide (free_nodes c = inputs c ∪ of_type c (is_ty BbOut)) &&
   bool_decide (outputs c ## bb_pins c) &&
-  (let N : gset string := set_map undot (dom c) in bool_decide (size N = size (dom c)) && gen_names_okb N n prefix).
+  (* flattened names of the nodes that are not ignored pins are pairwise distinct (a net may carry the name <inst>_<ignored pin>, C09-F4) *)
+  (let D := dom c ∖ ignored_pins c ign in let N : gset string := set_map undot D in bool_decide (size N = size D) && gen_names_okb N n prefix).
 
 Definition next_state (qd : list (string * string * string)) (x : val) : val :=
   λ nd, match list_find (λ p, p.1.2 = nd) qd with Some (_, p) => x p.2 | None => false end.
@@ -91,7 +92,7 @@ Fixpoint seq_sim (c : circuit) (ordc : list (string * ninfo)) (qd : list (string
       forallb (λ p, eqb (w (lk m (pre p.1.1 d) t)) (x p.2) && eqb (w (lk m (pre p.1.1 q) t)) (st p.1.2)) qd &&
       seq_sim c ordc qd d q m w ins outs r (next_state qd x)
   end.
-Definition seq_ok (C : Circuit) (n : nat) (d q : string) (afo : bool) (iv : init_vals) (ru : bool) (U : circuit) (m : iomap) : bool :=
+Definition seq_ok (C : Circuit) (n : nat) (d q : string) (ign : list string) (afo : bool) (iv : init_vals) (ru : bool) (U : circuit) (m : iomap) : bool :=
   let c := c_g C in
   let qd := qd_pins C d q in
   let insts := elements (dom (c_bbs C)) in
@@ -102,7 +103,9 @@ Definition seq_ok (C : Circuit) (n : nat) (d q : string) (afo : bool) (iv : init
   (* io map: D and Q of every flop, every output, every input unless it was removable; no other pin; n entries each *)
   sub_list ((b ← insts; [pre b d; pre b q]) ++ elements (outputs c)) (dom m) &&
   forallb (λ i, bool_decide (i ∈ dom m) || (ru && bool_decide (fanout c i ⊆ dropped))) (elements (inputs c)) &&
-  forallb (λ b, forallb (λ p, negb (bool_decide (pre b p ∈ dom m))) (elements ((bb_in bb ∖ {[d]}) ∪ (bb_out bb ∖ {[q]})))) insts &&
+  (* no pin other than D / Q; the name <inst>_<pin> of an IGNORED pin may be an ordinary io of c *)
+  forallb (λ b, forallb (λ p, negb (bool_decide (pre b p ∈ dom m)) || (bool_decide (p ∈ ign) && bool_decide (pre b p ∈ io_of c)))
+                        (elements ((bb_in bb ∖ {[d]}) ∪ (bb_out bb ∖ {[q]})))) insts &&
   bool_decide (map_Forall (λ _ l, length l = n) m) &&
   (* initial values *)
   forallb (λ b, match init_of iv b with None => bool_decide (x0 b ∈ inputs U) | Some t => bool_decide (ty U (x0 b) = Some t) end) insts &&
@@ -125,7 +128,7 @@ Definition seq_ok (C : Circuit) (n : nat) (d q : string) (afo : bool) (iv : init
 Definition seq_theorem_guards (C : Circuit) (n : nat) (d q : string) (ign : list string) (ru : bool) (p : string) : bool :=
   match seq_stripped C d q ign ru with
   | Ok (CS, sio) => let cs := c_g CS in
-      lint_cleanb C && closedb (c_g C) && acyclicb (c_g C) && bool_decide (flop_names_ok C) && bool_decide (flop_wiring_ok C q) &&
+      lint_cleanb C && closedb (c_g C) && acyclicb (c_g C) && bool_decide (flop_names_ok C ign) && bool_decide (flop_wiring_ok C q) &&
       negb (bool_decide (d ∈ ign)) && negb (bool_decide (q ∈ ign)) &&
       lint_cleanb CS && bool_decide (c_bbs CS = ∅) && closedb cs && acyclicb cs &&
       bool_decide (map_Forall (λ (_ : string) i, n_ty i ≠ BbIn ∧ n_ty i ≠ BbOut ∧ n_ty i ≠ Unsup ∧ n_ty i ≠ NoTy) cs) &&
@@ -144,10 +147,10 @@ Fixpoint holds (k : case) : bool :=
         end
       else true
   | CSeq C n d q ign afo iv ru p obs =>
-      if seq_domain C n d q p then
+      if seq_domain C n d q ign p then
         match norm obs with
         | Ok (U, m) => bool_decide (c_bbs U = ∅) && lint_cleanb U && closedb (c_g U) && acyclicb (c_g U) &&
-                       seq_ok C n d q afo iv ru (c_g U) m
+                       seq_ok C n d q ign afo iv ru (c_g U) m
         | _ => false
         end
       else true
@@ -168,7 +171,7 @@ Fixpoint agree (k : case) : bool :=
       bool_decide (sequential_unroll C n d q ign afo iv ru p = norm obs) &&
       (* inside the guards: the hypotheses of C09_sequential_simulates_partial hold for the recorded result
          (it is the plain unrolling of the stripped circuit up to output marks and step-0 constants) *)
-      (if seq_domain C n d q p then
+      (if seq_domain C n d q ign p then
          match seq_stripped C d q ign ru, norm obs with
          | Ok (CS, sio), Ok (U, m) =>
              let cs := c_g CS in
